@@ -1,7 +1,7 @@
 CONSTANTS Keys = {"a", "b"}
           NHol = 3
           NWk = 2
-          Rich = TRUE
+          Rich = FALSE
           MaxObj = 2
           Depth = 0
           KeepHist = FALSE
